@@ -383,7 +383,7 @@ func evalFailsafe(c *Case) *Verdict {
 			v.fail("C09", "panic", api+"@"+crashSig(a.panicTx), fmt.Sprintf("%s %s (options %s): %s", api, what, c.Opts, truncate(a.panicTx, 700)))
 			return true
 		case "overrun":
-			v.fail("C09", "does-not-terminate", api+"|"+modeOf(c.Opts), fmt.Sprintf("%s %s (options %s): no result within the logical step budget", api, what, c.Opts))
+			v.fail("C09", "does-not-terminate", api+"|"+modeOf(c.Opts), fmt.Sprintf("%s %s (options %s): no result within the logical budget: %s", api, what, c.Opts, lastOverrun))
 			return true
 		}
 		return false
@@ -501,8 +501,12 @@ func judgeFault(c *Case, v *Verdict, api string, base, a *apiObs, f Fault) bool 
 			return true
 		}
 	}
-	v.count("transient_fault_survived_with_correct_result", 1)
-	return false
+	// Strict reading of "if a referenced document cannot be loaded … Flatten returns an error rather than reporting
+	// success": the load failed once, Flatten must say so even if a later retry happened to succeed. (DESIGN.md §4 C09
+	// planned to relax this for transient faults if the unchanged tree survived them; it never does — 0 survivals in
+	// several hundred thousand injected transient faults — so the strict form is asserted.)
+	v.fail("C09", "silent-success-despite-load-failure", "transient-"+f.Kind+"|"+modeOf(c.Opts), fmt.Sprintf("Flatten (options %s) returned nil (with a complete result) although load #%d failed (fault %s): the failure was swallowed", c.Opts, f.K, f.Kind))
+	return true
 }
 
 func sortedKeysS(m map[string]string) []string {
